@@ -44,11 +44,11 @@ Expected(ln) ==
     ELSE IF ln.matched = "" THEN {"mux404"}
     ELSE UNION {Run(r, E(ln), Q(ln), 1) : r \in RoutesAt(ln.matched)}
 
-ReqOK(ln) ==
-    LET poss == Set(ln.poss) IN
-    /\ poss \cap Expected(ln) # {}
-    /\ (ln.clean /\ ln.matched # "" /\ poss = {Handler} /\ users # {} /\ ~Public(E(ln))
-          => Authenticated(Q(ln)))
+MechOK(ln) == Set(ln.poss) \cap Expected(ln) # {}
+\* The requirement, evaluated on the observation itself.
+NeedOK(ln) == ln.clean /\ ln.matched # "" /\ Set(ln.poss) = {Handler} /\ users # {} /\ ~Public(E(ln))
+                 => Authenticated(Q(ln))
+ReqOK(ln) == MechOK(ln) /\ NeedOK(ln)
 
 \* The real logout handler ends the session it is shown.
 LogsOut(ln) == /\ ln.clean /\ ln.matched = "/control/logout" /\ Set(ln.poss) = {Handler}
@@ -68,7 +68,9 @@ Step == /\ l <= Len(Trace)
                                            THEN Without(ln.cookie) ELSE sessions
            /\ bad' = IF ln.ev = "req" /\ ~ReqOK(ln)
                      THEN bad \cup {[i |-> l, exp |-> Expected(ln), cookie |-> CookieClass(ln.cookie),
-                                    hasUser |-> users # {}]}
+                                    hasUser |-> users # {},
+                                    why |-> IF ~NeedOK(ln) THEN "NoUnauthenticatedHandler fails on the observed response"
+                                            ELSE "response class not admitted for the extracted chain"]}
                      ELSE bad
         /\ l' = l + 1
         /\ UNCHANGED <<firstRun, clock, last, focus>>
